@@ -25,6 +25,11 @@ def run_single(pid, tier, seed, shard, nshards, part_path=None) -> int:
     mod = _load(pid)
     ctx = common.Ctx(pid, tier, seed, shard, nshards)
     mod.run(ctx)
+    from . import engines
+
+    if engines.FLATTENER_RETRIES[0]:
+        # statements re-run with AS MATERIALIZED because of the SQLite 3.39-3.40 flattener defect (see vp/engines.py)
+        ctx.ev.count("sqlite_flattener_defect_retries", engines.FLATTENER_RETRIES[0])
     if part_path is not None:
         part = ctx.ev.to_part()
         part["violation_lines"] = ctx.violation_lines
